@@ -100,7 +100,7 @@ Definition nak_seq (h : hdr) (eos maxn : Z) (mdm : bool) (tr : tracker) : list p
 
 (* an expiry of the NAK timer with the counter not at the limit is exactly a re-issue *)
 Theorem c14_dest_nak_reissue : forall s r eos t,
-  p_deferred (d_p s) = true -> p_rcfg (d_p s) = Some r -> p_file_size_eof (d_p s) = Some eos ->
+  p_deferred (d_p s) = true -> p_disp (d_p s) <> DISP_CANCELED -> p_rcfg (d_p s) = Some r -> p_file_size_eof (d_p s) = Some eos ->
   (p_tracker (d_p s) <> [] \/ p_md_missing (d_p s) = true) ->
   p_proc_timer (d_p s) = Some t -> timed_out (now_d s) t = true -> p_nak_counter (d_p s) + 1 <> r_nak_limit r ->
   deferred_lost_segment_handling s = nak_reissue r eos s.
@@ -126,7 +126,7 @@ Print Assumptions c14_dest_nak_reissue_exact.
    call declared the fault again and the missing data was never requested again.)  Without room for one segment request
    in a NAK PDU the re-issue raises ValueError after the callback, as below the limit. *)
 Theorem c14_dest_nak_limit_ignored_continues : forall s r eos t a b,
-  p_deferred (d_p s) = true -> p_rcfg (d_p s) = Some r -> p_file_size_eof (d_p s) = Some eos ->
+  p_deferred (d_p s) = true -> p_disp (d_p s) <> DISP_CANCELED -> p_rcfg (d_p s) = Some r -> p_file_size_eof (d_p s) = Some eos ->
   (p_tracker (d_p s) <> [] \/ p_md_missing (d_p s) = true) ->
   p_proc_timer (d_p s) = Some t -> timed_out (now_d s) t = true -> p_nak_counter (d_p s) + 1 = r_nak_limit r ->
   get_fault_handler (l_faults (d_cfg s)) C_NAK_LIMIT = Some FH_IGNORE -> p_tid (d_p s) = Some (a, b) ->
@@ -145,13 +145,21 @@ Print Assumptions c14_dest_nak_limit_ignored_continues.
 (* consequently the fault is declared once: the counter now equals the limit, so at every later expiry (counter at or
    beyond the limit: counter + 1 <> limit) the call is a re-issue and logs nothing *)
 Theorem c14_dest_nak_limit_not_declared_again : forall s r eos t,
-  p_deferred (d_p s) = true -> p_rcfg (d_p s) = Some r -> p_file_size_eof (d_p s) = Some eos ->
+  p_deferred (d_p s) = true -> p_disp (d_p s) <> DISP_CANCELED -> p_rcfg (d_p s) = Some r -> p_file_size_eof (d_p s) = Some eos ->
   (p_tracker (d_p s) <> [] \/ p_md_missing (d_p s) = true) ->
   p_proc_timer (d_p s) = Some t -> timed_out (now_d s) t = true -> r_nak_limit r <= p_nak_counter (d_p s) ->
   deferred_lost_segment_handling s = nak_reissue r eos s /\
   log_d (fst (deferred_lost_segment_handling s)) = log_d s.
 Proof. exact dst_nak_limit_not_declared_again. Qed.
 Print Assumptions c14_dest_nak_limit_not_declared_again.
+
+(* a cancelled transaction (F35 repair): the deferred procedure does nothing, whatever timer, counter and tracker say: no
+   NAK, no NAK Limit Reached fault, no callback; the cancel condition stands.  (The three theorems above about that procedure carry the
+   hypothesis p_disp (d_p s) <> DISP_CANCELED since this repair.) *)
+Theorem c14_dest_deferred_cancelled : forall s,
+  p_disp (d_p s) = DISP_CANCELED -> deferred_lost_segment_handling s = (s, Ok tt).
+Proof. exact dst_deferred_cancelled. Qed.
+Print Assumptions c14_dest_deferred_cancelled.
 
 (* no callback without a transaction id; conditions outside the table raise *)
 Theorem c14_dest_no_tid : forall s cond, p_tid (d_p s) = None -> declare_fault cond s = (s, Err E_ASSERT).
